@@ -40,6 +40,26 @@ def _find_by_id(parent: Element, child_tag: str, id: Optional[str]) -> Tuple[Opt
     return find_child(parent=parent, child_tag=child_tag, id=id)
 
 
+def _index_of(parent: Element, node: Element) -> int:
+    "The index of *node* among the children of *parent*"
+    for i, child in enumerate(parent):
+        if child is node:
+            return i
+    raise ValueError("node not found")
+
+
+def _move_before(parent: Element, nodes: List[Element], target: Optional[Element]):
+    """
+    Move *nodes* (children of *parent*), in the order given, immediately before
+    *target*, or to the end of *parent* if *target* is None.
+    """
+    for node in nodes:
+        remove_node(parent=parent, node=node)
+    index = len(parent) if target is None else _index_of(parent, target)
+    for i, node in enumerate(nodes, start=index):
+        insert_node(parent=parent, node=node, index=i)
+
+
 @total_ordering
 class MosFile:
     """
@@ -852,7 +872,7 @@ class StoryMove(MosFile):
                 f"{self.__class__.__name__} error in {self.message_id} - no stories given"
             )
         if self.target_story is None:
-            target_story_index = len(ro.base_tag)
+            target_story = None
         else:
             target_story, target_story_index = _find_by_id(ro.base_tag, 'story', self.target_story.id)
             if target_story is None:
@@ -864,8 +884,11 @@ class StoryMove(MosFile):
             raise MosMergeError(
                 f"{self.__class__.__name__} error in {self.message_id} - source story not found"
             )
-        remove_node(parent=ro.base_tag, node=source_story)
-        insert_node(parent=ro.base_tag, node=source_story, index=target_story_index)
+        if source_story is target_story:
+            raise MosMergeError(
+                f"{self.__class__.__name__} error in {self.message_id} - cannot move a story before itself"
+            )
+        _move_before(ro.base_tag, [source_story], target_story)
         return ro
 
     def inspect(self):
@@ -953,7 +976,7 @@ class ItemMoveMultiple(MosFile):
             )
 
         if self.item is None:
-            target_item_index = len(story)
+            target_item = None
         else:
             target_item, target_item_index = _find_by_id(story, 'item', self.item.id)
             if target_item is None:
@@ -961,14 +984,19 @@ class ItemMoveMultiple(MosFile):
                     f"{self.__class__.__name__} error in {self.message_id} - target item not found"
                 )
 
-        for i, item in enumerate(self.items, start=target_item_index):
+        source_items = []
+        for item in self.items:
             source_item, source_item_index = _find_by_id(story, 'item', item.id)
             if source_item_index is None:
                 raise MosMergeError(
                     f"{self.__class__.__name__} error in {self.message_id} - source item not found"
                 )
-            remove_node(parent=story, node=source_item)
-            insert_node(parent=story, node=source_item, index=i)
+            if source_item is target_item or any(source_item is other for other in source_items):
+                raise MosMergeError(
+                    f"{self.__class__.__name__} error in {self.message_id} - duplicate item"
+                )
+            source_items.append(source_item)
+        _move_before(story, source_items, target_item)
 
         return ro
 
@@ -1888,7 +1916,7 @@ class EAStoryMove(ElementAction):
         Merge into the :class:`RunningOrder` object provided.
         """
         if self.story is None:
-            target_story_index = len(ro.base_tag)
+            target_story = None
         else:
             target_story, target_story_index = _find_by_id(ro.base_tag, 'story', self.story.id)
             if target_story is None:
@@ -1896,14 +1924,19 @@ class EAStoryMove(ElementAction):
                     f"{self.__class__.__name__} error in {self.message_id} - target story not found"
                 )
 
+        stories = []
         for source_story in self.stories:
             story, source_index = _find_by_id(ro.base_tag, 'story', source_story.id)
             if story is None:
                 raise MosMergeError(
                     f"{self.__class__.__name__} error in {self.message_id} - source story not found"
                 )
-            remove_node(parent=ro.base_tag, node=story)
-            insert_node(parent=ro.base_tag, node=story, index=target_story_index)
+            if story is target_story or any(story is other for other in stories):
+                raise MosMergeError(
+                    f"{self.__class__.__name__} error in {self.message_id} - duplicate story"
+                )
+            stories.append(story)
+        _move_before(ro.base_tag, stories, target_story)
         return ro
 
     def inspect(self):
@@ -1968,19 +2001,28 @@ class EAItemMove(ElementAction):
             raise MosMergeError(
                 f"{self.__class__.__name__} error in {self.message_id} - story not found"
             )
-        target_item, target_item_index = _find_by_id(story, 'item', self.item.id)
-        if target_item is None:
-            raise MosMergeError(
-                f"{self.__class__.__name__} error in {self.message_id} - target item not found"
-            )
-        for i, source_item in enumerate(self.items, start=target_item_index):
+        if self.item.id is None:
+            # move to bottom
+            target_item = None
+        else:
+            target_item, target_item_index = _find_by_id(story, 'item', self.item.id)
+            if target_item is None:
+                raise MosMergeError(
+                    f"{self.__class__.__name__} error in {self.message_id} - target item not found"
+                )
+        items = []
+        for source_item in self.items:
             item, item_index = _find_by_id(story, 'item', source_item.id)
             if item is None:
                 raise MosMergeError(
                     f"{self.__class__.__name__} error in {self.message_id} - source item not found"
                 )
-            remove_node(parent=story, node=item)
-            insert_node(parent=story, node=item, index=i)
+            if item is target_item or any(item is other for other in items):
+                raise MosMergeError(
+                    f"{self.__class__.__name__} error in {self.message_id} - duplicate item"
+                )
+            items.append(item)
+        _move_before(story, items, target_item)
         return ro
 
     def inspect(self):
